@@ -412,6 +412,10 @@ RULES += engine.premise_rules("c04", ["piece-pair", "turn-pair", "ep-pair", "cas
 RULES += engine.premise_rules("c01", ["ply-builder", "capture-src", "leaf-accessors"])
 # "from the standard start or any valid FEN": the first history record (clock, rights) is what the FEN said
 RULES += engine.premise_rules("c07", ["fields", "history", "build"])
+# a user plays "a sequence of legal moves" through `position ... moves ...`: the board the engine then holds is the start /
+# FEN position with exactly those moves made on it, whatever came before (C08: fresh scratch board, every token looked up
+# and played as written, one commit)
+RULES += engine.premise_rules("c08", ["fresh", "commit", "apply", "tokens", "dispatch"])
 
 
 def run(tier):
